@@ -231,6 +231,7 @@ def c16(run):
     r_lenread.run_accum_guard(run, P)
     r_uriclass.run(run, P)
     r_uriclass.run_hexcase(run, P)
+    r_uriclass.run_dot_root(run, P)
     from rules import r_sizefill
     r_sizefill.run(run, P, units=('coap_uri.c',))
     r_sizefill.run_separator(run, P, units=('coap_uri.c',))
@@ -245,7 +246,7 @@ def c16(run):
         "coap_host_is_unix_domain) is proven inside the delimited bytes by a cursor/remaining-length analysis, and decode_segment is only called "
         "after a tested check_segment on the same arguments (R-LEN-READ); the unescaped character classes, evaluated for all 256 byte values on "
         "the extracted expression, exclude the separators the reconstruction writes and '%' (R-URI-CLASS, necessary for injectivity); optlist "
-        "constructors are NULL-checked (R-ALLOC-NULL). The measuring and the filling loop of the reconstruction agree for all 256 byte values (R-SIZE-FILL); a port number cannot leave its digit loop through the value guard without being rejected by the range check (R-LEN-READ accumulator guard). Equality tests against hex letters come in both cases (R-URI-CLASS hex case).")
+        "constructors are NULL-checked (R-ALLOC-NULL). The measuring and the filling loop of the reconstruction agree for all 256 byte values (R-SIZE-FILL); a port number cannot leave its digit loop through the value guard without being rejected by the range check (R-LEN-READ accumulator guard). Equality tests against hex letters come in both cases (R-URI-CLASS hex case). The position from which a `..` segment may delete is behind the last element the caller's chain already held (dot-dot stops at the root).")
 
 
 def c15(run):
